@@ -60,6 +60,10 @@ func genH(t *rapid.T) (HCase, *env.Env) {
 	if rapid.IntRange(0, 5).Draw(t, "timeoffset?") == 0 {
 		cfg.Extra = append(cfg.Extra, "timeoffset_"+rapid.SampledFrom([]string{"1", "7.5", "-3", "100"}).Draw(t, "toff"))
 	}
+	if rapid.IntRange(0, 3).Draw(t, "timesubs?") == 0 {
+		// generated subtitle adaptation sets (they mirror the video timeline), one or both kinds
+		cfg.Extra = append(cfg.Extra, strings.Split(rapid.SampledFrom([]string{"timesubsstpp_en", "timesubswvtt_en,sv", "timesubsstpp_en,sv/timesubswvtt_en", "timesubswvtt_de/timesubsstpp_en"}).Draw(t, "timesubs"), "/")...)
+	}
 	c := HCase{Target: tg, MPD: rapid.SampledFrom(names).Draw(t, "mpd"), Cfg: cfg, TTL: rapid.SampledFrom([]int{1, 10, 30, 60, 600}).Draw(t, "ttl")}
 	if tg.Layout == nil && rapid.IntRange(0, 3).Draw(t, "periods?") == 0 {
 		var ok []int
@@ -442,7 +446,7 @@ func genTree(t *rapid.T) TreeCase {
 	}
 	for e := 0; e < nEd; e++ {
 		ps := periods()
-		switch rapid.SampledFrom([]string{"s-append", "s-append", "s-drop-first", "s-drop-first", "s-repeat", "s-insert-mid", "attr-change", "attr-add", "attr-remove", "period-append", "period-drop-first", "as-add", "rep-add", "rep-remove", "leaf-text", "noid-remove", "noid-add", "role-change", "role-change"}).Draw(t, "edit") {
+		switch rapid.SampledFrom([]string{"s-append", "s-append", "s-drop-first", "s-drop-first", "s-repeat", "s-insert-mid", "attr-change", "attr-add", "attr-remove", "period-append", "period-drop-first", "as-add", "rep-add", "rep-remove", "leaf-text", "leaf-text+attr", "noid-remove", "noid-add", "role-change", "role-change"}).Draw(t, "edit") {
 		case "s-append", "s-drop-first", "s-repeat", "s-insert-mid":
 			if len(ps) == 0 {
 				continue
@@ -636,6 +640,14 @@ func genTree(t *rapid.T) TreeCase {
 			}
 		case "noid-add":
 			nw.kids = append(nw.kids, &tnode{name: "UTCTiming", attrs: [][2]string{{"schemeIdUri", "urn:mpeg:dash:utc:http-iso:2014:" + strconv.Itoa(e)}, {"value", "https://time.example/iso" + strconv.Itoa(e)}}}) // unique scheme: such elements are addressed by it
+		case "leaf-text+attr":
+			// a leaf element whose text changes (PatchLocation always does) gains or loses an attribute at the same time
+			pl := nw.kids[0]
+			if has := len(pl.attrs) > 1; has {
+				pl.attrs = pl.attrs[:1]
+			} else {
+				pl.attrs = append(pl.attrs, [2]string{"serviceLocation", "s" + strconv.Itoa(e)})
+			}
 		case "leaf-text":
 			for _, k := range nw.kids {
 				if k.name == "UTCTiming" {
